@@ -911,6 +911,24 @@ impl Prop for C08 {
                 }
             }
         }
+        // the fault x position x context matrix (props/faults.rs): whatever of it the checker accepts must run cleanly
+        {
+            use crate::props::faults;
+            let np = faults::pairs();
+            let nc = faults::CONTEXTS.len();
+            for k in 0..np * nc {
+                if !sh.mine(k as u64) {
+                    continue;
+                }
+                let (_, _, stmt, _) = faults::pair(k / nc);
+                let Some(case) = faults::place(&stmt, k % nc) else { continue };
+                let r = judge(sh, &case.text, b"", "fault-matrix", &["(matrix)"]);
+                if !sh.report(r) {
+                    return;
+                }
+            }
+            sh.note("fault_matrix_programs", json!(np * nc));
+        }
         let cases = sh.share(sh.tier.pick(24_000, 900_000));
         let size = sh.tier.pick(10, 18);
         sh.search(1, cases, 60, sh.tier.pick(500, 900), |sh, tape| one_case(sh, tape, size));
